@@ -241,3 +241,59 @@ def _piece(dyn, t0, t1, state):
     sol = solve_ivp(partial(dyn._differentialEquation, check_collision=True), (t0, t1), np.asarray(state, dtype=float), method="RK45", rtol=dyn.RELATIVE_TOL,
                     atol=dyn.ABSOLUTE_TOL * np.ones(6))
     return sol.y[:, -1]
+
+
+FB = "resonaate.data.events.finite_burn:"
+FM = "resonaate.data.events.finite_maneuver:"
+SDT = "resonaate.physics.time.stardate:"
+
+
+@obligation("C15", "queue_events", ensures=["O-C15-queue.burn-interval", "O-C15-queue.maneuver-interval", "O-C15-queue.thrust"],
+            fns=[FB + "ScheduledFiniteBurnEvent.handleEvent", FM + "ScheduledFiniteManeuverEvent.handleEvent", SDT + "JulianDate.convertToScenarioTime"], mode="R",
+            note="a finite burn / finite maneuver event queues exactly one integration event on the agent it is handed to, whose interval is [(start JD - scenario start JD) * 86400, (end JD - scenario start JD) * 86400] - "
+                 "the configured interval, not rounded to the step grid or to whole seconds - with the configured acceleration vector and frame (burn) resp. maneuver type and magnitude (maneuver)")
+def queue_events(vc):
+    import resonaate.dynamics.integration_events.finite_thrust as ft
+    jd0 = vc.real("jd0", 2450000, 2470000)
+    s_off, dur = vc.real("start_off_s", 0, 1e6), vc.real("dur_s", 1e-3, 1e5)
+    sjd, ejd = jd0 + s_off / 86400, jd0 + (s_off + dur) / 86400
+    acc = vc.vec("acc", 3, -1e-3, 1e-3)
+    mag = vc.real("mag", 1e-9, 1e-3)
+    made = []
+    if vc.symbolic:
+        JD = vc.float_class(SDT + "JulianDate")
+        for m in (FB, FM):
+            vc.stub(m + "@JulianDate", JD)
+        vc.stub(SDT + "@ScenarioTime", vc.float_class(SDT + "ScenarioTime"))
+        vc.stub(FB + "@ScheduledFiniteBurn", lambda *a: (made.append(("burn",) + a), "BURN")[1])
+        vc.stub(FM + "@ScheduledFiniteManeuver", lambda *a: (made.append(("maneuver",) + a), "MANEUVER")[1])
+        burn_ev = vc.new(FB + "ScheduledFiniteBurnEvent", start_time_jd=sjd, end_time_jd=ejd, acc_vec_0=acc[0], acc_vec_1=acc[1], acc_vec_2=acc[2], thrust_frame="ntw")
+        man_ev = vc.new(FM + "ScheduledFiniteManeuverEvent", start_time_jd=sjd, end_time_jd=ejd, maneuver_type="plane_change", maneuver_mag=mag)
+        jd_start = JD(jd0)
+    else:
+        from resonaate.physics.time.stardate import JulianDate
+        import resonaate.data.events.finite_burn as fb_
+        import resonaate.data.events.finite_maneuver as fm_
+        vc.install(FB + "@ScheduledFiniteBurn", lambda *a: (made.append(("burn",) + a), "BURN")[1])
+        vc.install(FM + "@ScheduledFiniteManeuver", lambda *a: (made.append(("maneuver",) + a), "MANEUVER")[1])
+        burn_ev = fb_.ScheduledFiniteBurnEvent(start_time_jd=sjd, end_time_jd=ejd, acc_vec_0=acc[0], acc_vec_1=acc[1], acc_vec_2=acc[2], thrust_frame="ntw")
+        man_ev = fm_.ScheduledFiniteManeuverEvent(start_time_jd=sjd, end_time_jd=ejd, maneuver_type="plane_change", maneuver_mag=mag)
+        jd_start = JulianDate(jd0)
+    q = []
+    agent = _NS(julian_date_start=jd_start, simulation_id=77, appendPropagateEvent=lambda ev: q.append(ev))
+    burn_ev.handleEvent(agent)
+    man_ev.handleEvent(agent)
+    val = lambda x: x._pyvc_value() if hasattr(x, "_pyvc_value") else float(x)
+    want_s, want_e = (sjd - jd0) * 24 * 3600, (ejd - jd0) * 24 * 3600
+    tol = 0 if vc.symbolic else 1e-4  # (natively a Julian date near 2.45e6 resolves about 4e-5 s)
+    ok_shape = q == ["BURN", "MANEUVER"] and len(made) == 2 and made[0][0] == "burn" and made[1][0] == "maneuver" and made[0][4] == 77 and made[1][4] == 77
+    vc.ensure("O-C15-queue.burn-interval", vc.And(ok_shape, vc.close(val(made[0][1]), want_s, tol), vc.close(val(made[0][2]), want_e, tol)) if ok_shape else False)
+    vc.ensure("O-C15-queue.maneuver-interval", vc.And(ok_shape, vc.close(val(made[1][1]), want_s, tol), vc.close(val(made[1][2]), want_e, tol)) if ok_shape else False)
+    f1, f2 = made[0][3], made[1][3]
+    vc.ensure("O-C15-queue.thrust", vc.And(f1.func is ft.ntwBurn, vc.eq(f1.keywords["acc_vector"], acc), f2.func is ft.planeChangeThrust, vc.eq(f2.keywords["magnitude"], mag)) if ok_shape else False)
+
+
+# while on, the acceleration reaches the force model with the INERTIAL state as its argument (thrust frames are built from it): the sum contract of C13, re-checked here
+from pyvc.harness import share as _share  # noqa: E402
+from contracts import C13 as _C13  # noqa: E402,F401
+_share("C13", "sum[K1]", "C15")
